@@ -174,6 +174,38 @@ class SArray:
     def cells(self):
         return [self.buf.cells[j] for j in self._flat_idx()]
 
+    def fill(self, v):
+        dt = self.buf.dtype
+        for j in self._flat_idx():
+            self.buf.cells[j] = _conv(v, dt)
+        self.buf.writes += 1
+
+    def astype(self, dtype, copy=True):
+        c = self.copy()
+        dt = _dt(dtype)
+        c.buf.dtype = dt
+        c.buf.cells = [_conv(x, dt) for x in c.buf.cells]
+        return c
+
+    def ravel(self):
+        return SArray(self.buf, (self.size,), self.offset)
+
+    def sum(self):
+        tot = 0
+        for x in self.cells():
+            tot = tot + x
+        return tot
+
+    def any(self):
+        import z3
+        return sx.SymBool(z3.Or([sx.zbool(x) for x in self.cells()] or [z3.BoolVal(False)])) \
+            if any(sx.is_sym(x) for x in self.cells()) else any(bool(x) for x in self.cells())
+
+    def all(self):
+        import z3
+        return sx.SymBool(z3.And([sx.zbool(x) for x in self.cells()] or [z3.BoolVal(True)])) \
+            if any(sx.is_sym(x) for x in self.cells()) else all(bool(x) for x in self.cells())
+
     def tolist(self):
         if self.ndim == 1:
             return self.cells()
